@@ -34,10 +34,15 @@ type replayFile struct {
 	Explanation string            `json:"explanation"`
 }
 
+// a check replays at most maxReplays failed obligations on the real code (each replay builds and runs a test)
+const maxReplays = 12
+
+var replaysDone int
+
 // writeReplay stores everything known about a failed obligation under /verif/replays/<prop>/
 // and, where a model exists and the function shape is supported, replays it on the real code.
 func writeReplay(e *Engine, l *Loaded, prop string, g *groupResult, scratch string) (string, bool) {
-	dir := filepath.Join(verifRoot, "replays", prop)
+	dir := filepath.Join(outRoot(), "replays", prop)
 	os.MkdirAll(dir, 0o755)
 	base := unsafeName.ReplaceAllString(g.Name, "_")
 	path := filepath.Join(dir, base+".json")
@@ -59,7 +64,10 @@ func writeReplay(e *Engine, l *Loaded, prop string, g *groupResult, scratch stri
 				rf.SMTFile = smt
 			}
 		}
-		if (ob.Result == "sat" && ob.Model != nil) || (ob.run != nil && ob.run.fn != nil && funcKey(ob.run.fn) == "gates.GateInstanceFromId") {
+		replaysDone++
+		if replaysDone > maxReplays && ((ob.Result == "sat" && ob.Model != nil) || ob.run != nil) {
+			rf.Replay = fmt.Sprintf("not-replayed: only the first %d failed obligations of a check are replayed on the real code", maxReplays)
+		} else if (ob.Result == "sat" && ob.Model != nil) || (ob.run != nil && ob.run.fn != nil && funcKey(ob.run.fn) == "gates.GateInstanceFromId") {
 			ok, log, test, why := replayOnRealCode(e, l, ob, scratch)
 			rf.ReplayLog = log
 			rf.ReplayTest = test
@@ -89,7 +97,7 @@ func writeReplay(e *Engine, l *Loaded, prop string, g *groupResult, scratch stri
 
 // writeReplayNote records a failed obligation that has no solver query behind it.
 func writeReplayNote(prop string, g *groupResult, why string) (string, bool) {
-	dir := filepath.Join(verifRoot, "replays", prop)
+	dir := filepath.Join(outRoot(), "replays", prop)
 	os.MkdirAll(dir, 0o755)
 	path := filepath.Join(dir, unsafeName.ReplaceAllString(g.Name, "_")+".json")
 	rf := replayFile{Property: prop, Obligation: g.Name, Status: g.Status, Function: g.Func, Mode: g.Mode, Source: g.Pos, Clause: g.Src,
